@@ -65,6 +65,16 @@ CHECKS = {
              'byte with the stored init segment (minus mehd in live mode); TLC checks that exactly the expected systems appended a pssh, that '
              'ClearKey pssh key ids / the PlayReady object name the track KID, that mehd is removed in live mode only and clear tracks are untouched.',
         note='Trusted: TLC, the independent ISO-BMFF walker and stored-file scan, the PlayReady object reader. Stored segment kinds are those of the fixture media; other layouts (no tfdt, explicit base offset, 16-byte IV) are covered at design level only.', design='4 C10'),
+    'C11': dict(
+        technique='TLA+ spec DrmData.tla: GUID permutation, PlayReady key-seed derivation and WRMHEADER checksum written in TLA+ with SHA-256 / '
+                  'AES-128 as IOExec oracles; ClearKey and ContentProtection decision tables model-checked; real helpers, /clearkey endpoint '
+                  'and manifests validated by TLC',
+        text='TLC checks the ClearKey response rule and the ContentProtection decision table exhaustively in small scope; the real GUID / '
+             'content-key / PlayReady-object generators are run on one-hot and random key ids, seeds of 30..64 bytes, WRMHEADER 4.0-4.3 and '
+             'licence URLs with reserved characters, the real /clearkey endpoint on mixes of known/unknown/duplicate ids, and every DRM '
+             'selection through real manifests and init segments; TLC recomputes keys and checksums from the spec\'s own derivation and '
+             'compares kid / LA_URL / checksum read back by an independent PlayReady-object reader, default_KID and manifest-vs-init pssh identity.',
+        note='Trusted: TLC, hashlib SHA-256 and a pure-Python AES-128 (FIPS-197 self-test) as primitives, the PRO reader, base64.', design='4 C11'),
     'C12': dict(
         technique='TLA+ spec MultiPeriod.tla over LiveWindow: TLC on period tiling (vod, live loop) and period-relative segment mapping; real '
                   'multi-period manifests and /mps media responses compared with stored files, validated by TLC',
